@@ -16,7 +16,9 @@ CATS = ["cpu_op", "user_annotation", "cuda_runtime", "cuda_driver", "kernel", "g
         "cuda_sync", "gpu_user_annotation", "python_function", "ac2g", "fwdbwd", "overhead", "cpu_instant_event"]
 SHARED = ["aten::mm", "aten::add", "cudaLaunchKernel", "Memcpy HtoD (Pageable -> Device)", "ncclKernel_AllReduce_RING_LL_Sum_float",
           "void at::native::vectorized_elementwise_kernel<4, at::native::FillFunctor<float>>(int)", "Context Sync", "Event Sync",
-          "élève::中文", "", " leading space", "Trace"]
+          "élève::中文", "", " leading space", "Trace",
+          # names that are also category strings of the file (record_function("kernel"), an annotation called cpu_op)
+          "kernel", "cpu_op", "user_annotation"]
 
 FIELD_LIKE_KEYS = ["name", "Name", "NAME.", "name (x)", "Ts", "ts", "Dur", "dur (us)", "Cat", "cat", "Pid", "pid", "Tid", "tid",
                    "Trace name", "Python id", "Ev Idx", "grid", "est. achieved occupancy %",
